@@ -88,6 +88,14 @@ func runC11(c *ShardCtx) {
 				&peg.Grammar{Rules: []*peg.Rule{{Name: "A", Expr: peg.Choice(peg.Action(0, peg.Seq(peg.Ref("B"), lit(t))), peg.Action(0, lit("a")))}, {Name: "B", Expr: peg.Choice(peg.Action(0, peg.Seq(peg.Ref("A"), lit("b"))), lit("b"))}}},
 			)
 		}
+		// an operand that errs inside a growth attempt which is discarded, and again - for real - at
+		// the same position afterwards (the error of the real evaluation belongs in the list)
+		lrs = append(lrs,
+			&peg.Grammar{Rules: []*peg.Rule{{Name: "S", Expr: peg.Action(0, peg.Seq(peg.Label("v", peg.Ref("E")), lit("b"), peg.Ref("N"), peg.Not(peg.Any())))},
+				{Name: "E", Expr: peg.Choice(peg.Seq(peg.Ref("E"), lit("b"), peg.Ref("N"), lit("c")), peg.Ref("N"))}, {Name: "N", Display: "operand", Expr: peg.Action(0, peg.Cls(false, false, "a", "b"))}}},
+			&peg.Grammar{Rules: []*peg.Rule{{Name: "S", Expr: peg.Action(0, peg.Seq(peg.Label("v", peg.Ref("E")), peg.Star(peg.Seq(lit("b"), peg.Ref("N")))))},
+				{Name: "E", Expr: peg.Choice(peg.Action(0, peg.Seq(peg.Label("l", peg.Ref("E")), lit("b"), peg.Label("r", peg.Ref("N")), lit("c"))), peg.Ref("N"))}, {Name: "N", Expr: peg.Action(0, peg.Cls(false, false, "a", "b"))}}},
+		)
 		for _, g := range lrs {
 			idx++
 			if !c.Mine(idx) {
@@ -95,7 +103,18 @@ func runC11(c *ShardCtx) {
 			}
 			peg.Renumber(g, 1)
 			peg.AssignArgs(g)
-			famLR := &family{gens: []core.Gen{{LeftRec: true}, {LeftRec: true, Optimize: true}}, inputs: inputsLR, opts: opts, scripts: faultScripts(g.Blocks(), 2, true), nontrivial: nontriv,
+			scr := faultScripts(g.Blocks(), 2, true)
+			// every action errs with a message that names the matched text: the action of a growing
+			// left-recursive rule errs at ONE start offset with a different message per accepted step
+			vary := map[int]*rtapi.Block{}
+			for _, blk := range g.Blocks() {
+				vary[blk.ID] = &rtapi.Block{Pred: rtapi.PredTrue}
+				if blk.K == peg.KAction {
+					vary[blk.ID].Err, vary[blk.ID].ErrText = "e"+itoa(blk.ID), true
+				}
+			}
+			scr = append(scr, vary)
+			famLR := &family{gens: []core.Gen{{LeftRec: true}, {LeftRec: true, Optimize: true}}, inputs: inputsLR, opts: opts, scripts: scr, nontrivial: nontriv,
 				cmp: core.CmpOpts{SkipLog: true}, confEvery: 2, confQuota: 1}
 			if g.Rule("A") != nil && g.Rule("B") != nil {
 				famLR.refOpts = func(o *peg.Options) { o.LeaderHeads = map[string]bool{"A": true} }
